@@ -117,6 +117,8 @@ def op_values(ops):
             vals.append(a.get("py") if a["a"] == "val" else a.get("tree"))
         elif op["op"] == "load_tree":
             vals.append(op["tree"])
+        elif op["op"] == "cmdline":
+            vals.extend(v for _, v in op["given"])
     return vals
 
 
@@ -130,6 +132,9 @@ def wire_op(op):
             w["value"] = {"a": "cfg", "schema_same": a["schema_same"], "tree": F.enc_val(a["tree"])}
     if op["op"] == "load_tree":
         w["tree"] = F.enc_val(op["tree"])
+    if op["op"] == "cmdline":
+        w.pop("argv", None)
+        w["given"] = [[d, F.enc_val(v)] for d, v in op["given"]]
     if op["op"] == "to_tree" and op.get("mask") is not None:
         w["mask"] = enc_str(op["mask"])
     return w
@@ -241,6 +246,10 @@ def run_impl(sk, ops, tmp, keypath, environ=None, tape=None):
                     cfg.load_tree(copy.deepcopy(op["tree"]), validate=op.get("validate", True))
                 elif k == "validate":
                     cfg.validate()
+                elif k == "cmdline":
+                    parser = cc.generate_argparse_parser(schema)
+                    args = parser.parse_args(op["argv"])
+                    cc.cmdline_args_override(cfg, args, ignore=op["ignore"])
                 elif k == "validate_collect":
                     errs = cfg.validate(collect_errors=True)
                     out = {"errors": [exc_out(e) for e in errs]}
